@@ -237,6 +237,55 @@ pub enum DynamicInsertionResult {
     NotInserted(DynamicLookupResult),
 }
 
+#[cfg(feature = "verif-hooks")]
+impl DynamicTable {
+    /// Canonical rendering of the complete state (maps in sorted order), for state hashing
+    /// and invariant checks by a verification harness.
+    pub fn verif_digest(&self) -> String {
+        use std::fmt::Write;
+        let mut out = String::new();
+        let _ = write!(
+            out,
+            "size={} max={} vas={:?} known_received={} blocked={}/{} fields=[",
+            self.curr_size,
+            self.max_size,
+            self.vas,
+            self.largest_known_received,
+            self.blocked_count,
+            self.blocked_max
+        );
+        for f in &self.fields {
+            let _ = write!(out, "{:?}={:?},", f.name, f.value);
+        }
+        let _ = write!(out, "] track_map={:?} blocked_streams={:?}", self.track_map, self.blocked_streams);
+        let mut blocks: Vec<(u64, Vec<std::collections::BTreeMap<usize, usize>>)> = self
+            .track_blocks
+            .iter()
+            .map(|(id, q)| {
+                (
+                    *id,
+                    q.iter()
+                        .map(|m| m.iter().map(|(k, v)| (*k, *v)).collect())
+                        .collect(),
+                )
+            })
+            .collect();
+        blocks.sort();
+        let _ = write!(out, " track_blocks={:?}", blocks);
+        let mut names: Vec<(&[u8], usize)> =
+            self.name_map.iter().map(|(k, v)| (&k[..], *v)).collect();
+        names.sort();
+        let mut fields: Vec<(&[u8], &[u8], usize)> = self
+            .field_map
+            .iter()
+            .map(|(k, v)| (&k.name[..], &k.value[..], *v))
+            .collect();
+        fields.sort();
+        let _ = write!(out, " name_map={:?} field_map={:?}", names, fields);
+        out
+    }
+}
+
 #[derive(Default)]
 pub struct DynamicTable {
     fields: VecDeque<HeaderField>,
